@@ -13,6 +13,8 @@ let index_cmd (toks : string list) : string option =
   match toks with
   | "box" :: d :: cs -> let d = nat_of_int (int_of_string d) in
       Some (zs (box d (List.map z_of_string cs)))
+  | "boxsafe" :: d :: cs -> let d = nat_of_int (int_of_string d) in
+      Some (if box_safe d (List.map z_of_string cs) then "safe" else "unsafe")
   | ["unbox"; d; i] -> let d = nat_of_int (int_of_string d) in
       Some (zlist_to_string (unbox d (z_of_string i)))
   | ["parent"; d; i] -> Some (zs (parent (nat_of_int (int_of_string d)) (z_of_string i)))
